@@ -249,6 +249,37 @@ func genUciDet(o *Out, r *rand.Rand, thorough bool) {
 		o.Count("ucidet:case-twins")
 		o.Nontrivial(l)
 	}
+	// the best move is an under-promotion (to a knight: mate; to a rook: the queen would stalemate): the answer must spell it
+	for _, l := range []string{
+		"uci plain 0 ; > position fen 6nr/5Ppk/7p/8/8/8/8/K7 w - - 0 1 ;; sync ;; state ;; > go depth 2 ;; wait-bestmove ;; state",
+		"uci plain 0 ; > position fen 8/k1P5/8/K7/8/8/8/8 w - - 0 1 ;; sync ;; state ;; > go depth 2 ;; wait-bestmove ;; state",
+		"uci plain 0 ; > position fen 6nr/5Ppk/7p/8/8/8/8/K7 w - - 0 1 moves f7f8n ;; sync ;; state ;; > go depth 1 ;; wait-bestmove ;; state",
+	} {
+		o.do(l)
+		o.Count("ucidet:underpromotion-best")
+		o.Nontrivial(l)
+	}
+	// a pseudo-legal move that is not legal (a check ignored, a king walking into an attack) in a move list: refused like any
+	// other bad move, and the driver keeps answering; during a search too
+	for _, l := range []string{
+		"uci plain 0 ; > position startpos moves e2e4 d7d5 f1b5 g8f6 ;; sync ;; state ;; > position startpos moves e2e4 d7d5 f1b5 c7c6 ;; sync ;; state ;; > go depth 1 ;; wait-bestmove ;; state",
+		"uci plain 0 ; > position fen 4k3/8/8/8/8/8/4r3/4K3 w - - 0 1 moves e1e2 e8e7 ;; sync ;; state ;; > position fen 4k3/8/8/8/8/8/4r3/4K3 w - - 0 1 moves e1d1 ;; sync ;; state",
+	} {
+		o.do(l)
+		o.Count("ucidet:pseudo-legal-illegal")
+		o.Nontrivial(l)
+	}
+	// an update that appends a whole shuffle (the diagram, the rights and the side to move come back), then an update that
+	// extends THAT line: the shuffle is in the game once, the counters say so
+	for _, l := range []string{
+		"uci plain 0 ; > position startpos moves e2e4 e7e5 ;; sync ;; state ;; > position startpos moves e2e4 e7e5 g1f3 g8f6 f3g1 f6g8 ;; sync ;; state ;; > position startpos moves e2e4 e7e5 g1f3 g8f6 f3g1 f6g8 d2d4 ;; sync ;; state",
+		"uci plain 0 ; > position fen 4k3/R7/8/8/8/8/8/4K3 w - - 11 40 ;; sync ;; state ;; > position fen 4k3/R7/8/8/8/8/8/4K3 w - - 11 40 moves a7b7 e8d8 b7a7 d8e8 ;; sync ;; state ;; > position fen 4k3/R7/8/8/8/8/8/4K3 w - - 11 40 moves a7b7 e8d8 b7a7 d8e8 e1e2 ;; sync ;; state",
+		"uci plain 0 ; > position startpos ;; sync ;; > position startpos moves g1f3 g8f6 f3g1 f6g8 ;; sync ;; state ;; > position startpos moves g1f3 g8f6 f3g1 f6g8 g1f3 g8f6 f3g1 f6g8 ;; sync ;; state ;; > position startpos moves g1f3 g8f6 f3g1 f6g8 g1f3 g8f6 f3g1 f6g8 e2e4 ;; sync ;; state",
+	} {
+		o.do(l)
+		o.Count("ucidet:shuffle-in-one-update")
+		o.Nontrivial(l)
+	}
 }
 
 // ---- interleavings (checked by a monitor over the event trace) ------------------------------------
@@ -270,6 +301,10 @@ func junkUciLine(r *rand.Rand) string {
 		// that only look like the ASCII ones, a promotion letter too many or of the wrong kind
 		almost := []string{"b5é", "e2é", "e2日", "g1ф", "é2e4", "e2éé", "ee2e4", "e2e4é", "e7e8é", "e2e4\u0301", "ｅ２ｅ４", "e2ｅ4", "ĲĴĲĴ", "eĲeĴ", "e²e4",
 			"e2e9", "i2i4", "e0e1", "e2e4k", "e7e8p", "e7e8K", "e2-e4", "e2e4+", "e2 e4", "e2", "e2e", "e2e4e5", "\u00e92e4", "日日日日", "日日日", "éééé", "ééééé", "a1\U0001F600", "\U0001F600a1a2"}
+		if r.Intn(6) == 0 { // a move that is pseudo-legal but illegal (check ignored; king into an attack; pinned piece)
+			return []string{"position startpos moves e2e4 d7d5 f1b5 g8f6", "position fen 4k3/8/8/8/8/8/4r3/4K3 w - - 0 1 moves e1d1 e8e7 e1e2",
+				"position fen 4k3/8/8/8/1b6/8/3N4/4K3 w - - 0 1 moves d2f3"}[r.Intn(3)]
+		}
 		pre := []string{"position startpos moves", "position startpos moves e2e4 e7e5", "position fen 8/4P1k1/8/8/8/8/1r6/1R5K w - - 0 1 moves"}[r.Intn(3)]
 		l := pre + " " + almost[r.Intn(len(almost))]
 		if r.Intn(3) == 0 {
